@@ -32,6 +32,8 @@ use core::marker::PhantomData;
 use crate::error::Error;
 use crate::utils::init;
 
+use crate::tlv::TLVSequence;
+
 use super::{EitherIter, FromTLV, TLVElement, TLVSequenceIter, TLVTag, TLVWrite, ToTLV, TLV};
 
 /// A type-state that indicates that the container can be any type of container (array, list or struct).
@@ -91,6 +93,11 @@ where
 
     /// Returns an iterator over the elements of the container.
     pub fn iter(&self) -> TLVContainerIter<'a, T> {
+        if self.element.is_empty() {
+            // An absent element is an empty container (see the `new` constructors)
+            return TLVContainerIter::new(TLVSequence(&[]).iter());
+        }
+
         TLVContainerIter::new(unwrap!(self.element.container()).iter())
     }
 }
@@ -226,6 +233,11 @@ where
     C: 'a,
 {
     fn from_tlv(element: &TLVElement<'a>) -> Result<Self, Error> {
+        if !element.is_empty() {
+            // `iter` relies on the element being a container
+            element.container()?;
+        }
+
         Ok(Self::new_unchecked(element.clone()))
     }
 }
